@@ -33,7 +33,7 @@ REPLAYS = os.environ.get('VERIF_REPLAY_DIR') or os.path.join(ROOT, 'replays')
 # VERIF_REPO is used only by the mutant self-test (scratch copies); registered checks use /repo
 REPO = os.path.realpath(os.environ.get('VERIF_REPO') or '/repo')
 EVIDENCE = os.path.join(ROOT, 'evidence')
-KNOWN = os.path.join(ROOT, 'known_findings.json')
+KNOWN = os.environ.get('VERIF_KNOWN_FINDINGS') or os.path.join(ROOT, 'known_findings.json')
 SIMCHECK = os.path.join(ROOT, 'bin', 'simcheck')
 
 PROPS = {'C10': 'sim.c10_lists', 'C17': 'sim.c17_frame'}
